@@ -26,7 +26,7 @@ open KaVerif Num Eval PyRt
 /-- the calls `dispatch(name, (numbers…))` made by the translated bodies: name and number of arguments -/
 def numCalls : List (String × Nat) :=
   [("<=", 2), ("<", 2), ("==", 2), ("min", 2), ("max", 2), ("min", 3), ("max", 3), ("abs", 1), ("-", 1), ("-", 2),
-   ("+", 2), ("*", 2), ("/", 2), ("^", 2), ("sqrt", 1), ("log", 2), ("int", 1)]
+   ("+", 2), ("*", 2), ("/", 2), ("^", 2), ("sqrt", 1), ("log", 2), ("int", 1), ("!=", 2), (">", 2), (">=", 2)]
 
 /-- On plain numbers the dispatcher answers with a number or raises (for the calls of `numCalls`).
     True of Ka's `dispatch`: see `numDisp_dispatchV`. -/
@@ -243,6 +243,45 @@ theorem interval_to_power_agree (h : NumDisp rec) (a b e : Num) :
   cases hn : truthy neg <;> simp only [Bool.true_and, Bool.false_and, Bool.and_false, if_true, if_false, Bool.false_eq_true, reduceIte]
 
 end Interval
+
+/-! ### the quantity-operator closures of `register_quantities_op` -/
+
+section Quantities
+variable {rec : Disp}
+open Gen.Bodies
+
+theorem qty_same_agree (h : NumDisp rec) (name : String) (hn : (name, 2) ∈ numCalls) (wrap : Bool) (x y : Num) (dx dy : List Int) :
+    register_quantities_op__f name Option.none wrap rec (.qty x dx) (.qty y dy)
+      = bQtyQty name .same wrap rec [.qty x dx, .qty y dy] := by
+  cases hd : (dx != dy) <;> cases wrap <;>
+    bodies_norm h [register_quantities_op__f, bQtyQty, qtyF, pyQv, mkQuantity, Option.isNone, NumDisp.c2 h name _ _ hn, hd]
+
+theorem qty_mul_agree (h : NumDisp rec) (name : String) (hn : (name, 2) ∈ numCalls) (wrap : Bool) (x y : Num) (dx dy : List Int) :
+    register_quantities_op__f name (some lambda_qv1_times_qv2) wrap rec (.qty x dx) (.qty y dy)
+      = bQtyQty name .mul wrap rec [.qty x dx, .qty y dy] := by
+  cases wrap <;>
+    bodies_norm h [register_quantities_op__f, bQtyQty, qtyF, pyQv, mkQuantity, Option.isNone, NumDisp.c2 h name _ _ hn,
+      lambda_qv1_times_qv2, qvMul]
+
+theorem qty_div_agree (h : NumDisp rec) (name : String) (hn : (name, 2) ∈ numCalls) (wrap : Bool) (x y : Num) (dx dy : List Int) :
+    register_quantities_op__f name (some lambda_qv1_div_qv2) wrap rec (.qty x dx) (.qty y dy)
+      = bQtyQty name .div wrap rec [.qty x dx, .qty y dy] := by
+  cases wrap <;>
+    bodies_norm h [register_quantities_op__f, bQtyQty, qtyF, pyQv, mkQuantity, Option.isNone, NumDisp.c2 h name _ _ hn,
+      lambda_qv1_div_qv2, qvDiv]
+
+/-- `left_is_number(n, q) = f(Quantity(n, zero), q)` -/
+theorem left_is_number_agree (f : Disp → Val → Val → R Val) (name : String) (rule : QvRule) (wrap : Bool) (x y : Num) (dy : List Int)
+    (hf : f rec (.qty x zeroDim) (.qty y dy) = bQtyQty name rule wrap rec [.qty x zeroDim, .qty y dy]) :
+    register_quantities_op__left_is_number f rec (.num x) (.qty y dy) = bNumQty name rule wrap rec [.num x, .qty y dy] := by
+  simp only [register_quantities_op__left_is_number, mkQuantity, ok_bind, hf, bQtyQty, bNumQty]
+
+theorem right_is_number_agree (f : Disp → Val → Val → R Val) (name : String) (rule : QvRule) (wrap : Bool) (x y : Num) (dx : List Int)
+    (hf : f rec (.qty x dx) (.qty y zeroDim) = bQtyQty name rule wrap rec [.qty x dx, .qty y zeroDim]) :
+    register_quantities_op__right_is_number f rec (.qty x dx) (.num y) = bQtyNum name rule wrap rec [.qty x dx, .num y] := by
+  simp only [register_quantities_op__right_is_number, mkQuantity, ok_bind, hf, bQtyQty, bQtyNum]
+
+end Quantities
 
 /-! ### arrays, ranges, variadic max / min (no hypothesis on the dispatcher is needed) -/
 
